@@ -31,6 +31,7 @@ type aEvent struct {
 	E   [2]any `json:"e"`
 	Ph  aHash  `json:"ph"`
 	Sh  int    `json:"sh"` // 1: on the wire the leading byte of the value sits at the end of the parent hash
+	Neg int    `json:"neg"` // 1: the value is negated (in memory)
 }
 type aPtm struct {
 	C  string `json:"c"`
@@ -69,6 +70,8 @@ type aCase struct {
 	Verify   bool           `json:"verify"`
 	ElAuth   bool           `json:"elauth"`
 	ElVerify bool           `json:"elverify"`
+	OtherKey bool           `json:"otherkey"`
+	Flatten  bool           `json:"flatten"`
 	Prep     []aPrep        `json:"prep"`
 	Ptm      []aPtm         `json:"ptm"`
 }
@@ -92,6 +95,8 @@ func (aw *authWorld) val(v [2]any) *big.Int {
 		return big.Convert(new(gobig.Int).SetBytes(full[1:]))
 	}
 	switch c {
+	case "nil":
+		return nil // a missing value
 	case "one":
 		return big.NewInt(1)
 	case "fresh":
@@ -162,7 +167,9 @@ func (aw *authWorld) eventBytes(ev aEvent) []byte {
 	b := make([]byte, 8)
 	binary.BigEndian.PutUint64(b, uint64(ev.Idx))
 	b = append(b, aw.hash(ev.Ph)...)
-	b = append(b, aw.val(ev.E).Go().Bytes()...)
+	if v := aw.val(ev.E); v != nil {
+		b = append(b, v.Go().Bytes()...)
+	}
 	return b
 }
 
@@ -172,6 +179,9 @@ func (aw *authWorld) event(ev aEvent) *revocation.Event {
 		b := e.Go().Bytes()
 		ph = append(append(revocation.Hash{}, ph...), b[0])
 		e = big.Convert(new(gobig.Int).SetBytes(b[1:]))
+	}
+	if ev.Neg == 1 && e != nil {
+		e = new(big.Int).Neg(e)
 	}
 	return &revocation.Event{Index: uint64(ev.Idx), E: e, ParentHash: ph}
 }
@@ -186,6 +196,9 @@ func (aw *authWorld) acc(a aAcc) *revocation.Accumulator {
 type sigTuple struct{ Msg, Sig []byte }
 
 func (aw *authWorld) sacc(s aSacc) *revocation.SignedAccumulator {
+	if s.Key == 3 {
+		return nil // the message carries no accumulator at all
+	}
 	overBytes, err := cbor.Marshal(aw.acc(s.Over), cbor.EncOptions{})
 	if err != nil {
 		hx.Fatal("cbor: %v", err)
@@ -226,7 +239,7 @@ func sameEvents(a []*revocation.Event, b []*revocation.Event) bool {
 		return false
 	}
 	for i := range a {
-		if a[i].Index != b[i].Index || a[i].E.Cmp(b[i].E) != 0 || !bytes.Equal(a[i].ParentHash, b[i].ParentHash) {
+		if a[i].Index != b[i].Index || (a[i].E == nil) != (b[i].E == nil) || (a[i].E != nil && a[i].E.Cmp(b[i].E) != 0) || !bytes.Equal(a[i].ParentHash, b[i].ParentHash) {
 			return false
 		}
 	}
@@ -383,8 +396,23 @@ func runAuthCase(aw *authWorld, wA *world, witE *big.Int, L int, c aCase, res *h
 			res.Violation("unauthentic-update-verified", "Update.Verify accepted an update that is not a genuine signed chain segment ("+v.name+")",
 				hx.M{"case": c, "variant": v.name})
 		}
+		// 1a. the same object, verified under the issuer's key before, is now verified under an unrelated key (other ECDSA key, other counter)
+		if err == nil {
+			pk2 := *pk
+			pk2.ECDSA, pk2.Counter = &aw.other.PublicKey, pk.Counter+7
+			var kerr error
+			if panicked, msg := hx.Try(func() { _, kerr = v.u.Verify(&pk2) }); panicked {
+				res.Violation("verify-panic", "Update.Verify under another key panicked: "+msg, hx.M{"case": c, "variant": v.name})
+			} else if kerr == nil {
+				res.Violation("update-verified-under-unrelated-key", "an update that was verified under the issuer's key is accepted under an unrelated public key afterwards (same object)",
+					hx.M{"case": c, "variant": v.name})
+			}
+			res.Count("otherkey-checked")
+			// restore the memo for what follows
+			hx.Try(func() { _, _ = v.u.Verify(pk) })
+		}
 		// 1b. Update.Prepend of GENUINE event lists to this (possibly tampered) update, once the receiver holds its accumulator
-		if v.u.SignedAccumulator.Accumulator != nil && len(v.u.Events) > 0 {
+		if v.u.SignedAccumulator != nil && v.u.SignedAccumulator.Accumulator != nil && len(v.u.Events) > 0 {
 			chain := aw.chains[c.Msg.Sacc.Payload.Nu[0].(string)]
 			accIdx := c.Msg.Sacc.Payload.Idx
 			for _, pt := range c.Ptm {
@@ -435,7 +463,7 @@ func runAuthCase(aw *authWorld, wA *world, witE *big.Int, L int, c aCase, res *h
 		for o := 0; o <= L; o++ {
 			wit := wA.witness(witE, o, 0, true)
 			u := v.u
-			if o > 0 { // fresh object per application (Witness.Update memoises inside the update)
+			if o > 0 && v.u.SignedAccumulator != nil { // fresh object per application (Witness.Update memoises inside the update)
 				u = &revocation.Update{SignedAccumulator: &revocation.SignedAccumulator{Data: v.u.SignedAccumulator.Data, PKCounter: v.u.SignedAccumulator.PKCounter},
 					Events: append([]*revocation.Event{}, v.u.Events...)}
 			}
@@ -455,7 +483,7 @@ func runAuthCase(aw *authWorld, wA *world, witE *big.Int, L int, c aCase, res *h
 				res.Violation("rejected-update-changed-witness", fmt.Sprintf("Witness.Update returned %v but changed the witness", uerr),
 					hx.M{"case": c, "variant": v.name, "witness_index": o})
 			}
-			if uerr == nil && c.Msg.Sacc.Payload.Nu[0].(string) == "A" && !wA.validAny(aw, wit) {
+			if uerr == nil && !wA.validAny(aw, wit) {
 				res.Violation("update-left-invalid-witness", "Witness.Update succeeded but the witness is not valid against the accumulator it now holds",
 					hx.M{"case": c, "variant": v.name, "witness_index": o})
 			}
@@ -542,6 +570,38 @@ func runAuthCase(aw *authWorld, wA *world, witE *big.Int, L int, c aCase, res *h
 					res.Violation("unauthentic-prepend-accepted", "Update.Prepend succeeded but the update no longer holds a genuine chain segment",
 						hx.M{"case": c, "variant": name, "target": p})
 				}
+			}
+		}
+	}
+	// 5. FlattenEventLists of the events cut into two lists (in memory), then EventList.Verify of the result
+	if c.Msg.Transported == "no" && len(c.Msg.Events) >= 2 {
+		var evs []*revocation.Event
+		for _, ev := range c.Msg.Events {
+			evs = append(evs, aw.event(ev))
+		}
+		acc := aw.acc(c.Msg.Sacc.Payload)
+		for cut := 1; cut < len(evs); cut++ {
+			if evs[0].Index >= evs[cut].Index {
+				continue // FlattenEventLists sorts the lists by their first index: only cuts that keep the order are the message's event sequence
+			}
+			var ferr error
+			panicked, msg := hx.Try(func() {
+				var flat *revocation.EventList
+				flat, ferr = revocation.FlattenEventLists([]*revocation.EventList{revocation.NewEventList(evs[:cut]...), revocation.NewEventList(evs[cut:]...)})
+				if ferr == nil {
+					ferr = flat.Verify(acc)
+				}
+			})
+			// (sorting by first index may reorder the two halves when indices were tampered with: the result is what it is)
+			if panicked {
+				res.Violation("flatten-panic", "FlattenEventLists / EventList.Verify panicked: "+msg, hx.M{"case": c, "cut": cut})
+				break
+			}
+			res.Count(fmt.Sprintf("flatten:code=%v:spec=%v", ferr == nil, c.Flatten))
+			if ferr == nil && !c.ElAuth {
+				res.Violation("unauthentic-eventlist-verified", "EventList.Verify accepted the result of FlattenEventLists although the events are not a genuine chain segment ending in the accumulator's event hash",
+					hx.M{"case": c, "cut": cut})
+				break
 			}
 		}
 	}
